@@ -272,6 +272,11 @@ def main(argv=None):
     if counters:
         print("monitor events: " + ", ".join(f"{k}={v}" for k, v in sorted(counters.items())))
     if new_violations:
+        os.makedirs(os.path.join(ROOT, "replay", prop), exist_ok=True)
+        with open(os.path.join(ROOT, "replay", prop, "all_violations.jsonl"), "w") as fh:
+            for idx, res, unlisted in new_violations:
+                for v in unlisted:
+                    fh.write(json.dumps({"case": idx, "violation": v}, default=str) + "\n")
         bykey = {}
         for idx, res, unlisted in new_violations:
             for v in unlisted:
@@ -307,4 +312,12 @@ def main(argv=None):
 
 
 if __name__ == "__main__":
-    sys.exit(main())
+    try:
+        rc = main()
+    except Exception:  # a crash of the harness is never a verdict
+        import traceback
+
+        traceback.print_exc()
+        print(f"INCONCLUSIVE property={sys.argv[1] if len(sys.argv) > 1 else '?'} reason=harness crashed")
+        rc = 2
+    sys.exit(rc)
